@@ -1,5 +1,6 @@
 mod c03;
 mod c06;
+mod c09;
 mod c15;
 mod tirgen;
 mod gal;
@@ -107,6 +108,7 @@ fn main() {
         ("run", "C04") => c03::run(&mut ctx, true),
         ("run", "C06") => c06::run(&mut ctx, false),
         ("run", "C07") => c06::run(&mut ctx, true),
+        ("run", "C09") => c09::run(&mut ctx),
         ("extract", _) => {
             // translators: none registered yet
             return;
